@@ -1,4 +1,5 @@
 import time
+import math
 import re
 import random
 import threading
@@ -333,6 +334,8 @@ class System(ListeningSystem):
             coords = args[4:]
             for index, coord in enumerate(coords):
                 coords[index] = float(coord) + servo.offsets[index]
+                if not math.isfinite(coords[index]):
+                    return self.bad
         except ValueError:
             return self.bad
 
@@ -535,6 +538,8 @@ class Servo:
                 continue
             if apply_offsets:
                 value += self.offsets[index]
+            if not math.isfinite(value):
+                return False
             if value < self.min_coord[index] or value > self.max_coord[index]:
                 return False
             coords[index] = value
